@@ -322,6 +322,10 @@ func (st *ImmuStore) valueRefFrom(tx, hc uint64, indexedVal []byte) (ValueRef, e
 	valLen := binary.BigEndian.Uint32(indexedVal[i:])
 	i += lszSize
 
+	if int64(valLen) > int64(st.maxValueLen) {
+		return nil, ErrCorruptedIndex
+	}
+
 	vOff := int64(binary.BigEndian.Uint64(indexedVal[i:]))
 	i += offsetSize
 
